@@ -804,7 +804,7 @@ func c05MakeEnvs() ([]*c02Env, error) {
 }
 
 func runC05(c *vx.Ctx) {
-	c.Rule = "full argument grids (finite menus per argument, all combinations) for the ETX and CONVERT opcodes, evm.Call/CALL to out-of-scope addresses and the lockup precompile (UnwrapQi, ClaimCoinbaseLockup), each in 3 fork regimes and with an empty / 2-entry / 65535 / 65536-entry outbound cache; plus all short multi-frame programs of such operations run through the real applyTransaction; outcome class = operation x reported result (status word / error class)"
+	c.Rule = "full argument grids (finite menus per argument, all combinations) for the ETX and CONVERT opcodes, evm.Call/CALL to out-of-scope addresses and the lockup precompile (UnwrapQi, ClaimCoinbaseLockup), each in 3 fork regimes and with an empty / 2-entry / 65535 / 65536-entry outbound cache; plus all short multi-frame programs of such operations run through the real applyTransaction; outcome class = operation x reported result (status word / error class); block: all arrival sequences of <=3 ETX-emitting transactions assembled by a real node and run through the real Process"
 	c.Assume("the prepaid destination fee of opETX is (gasTipCap+gasFeeCap)*etxGasLimit and of opConvert gasPrice*etxGasLimit (the formulas of the code under test); CALL-created ETXs, UnwrapQi and ClaimCoinbaseLockup prepay in gas, not in balance")
 	c.Assume("an aborted frame (error returned by the interpreter) counts as 'reports failure'")
 	c.Assume("the 65535/65536-entry outbound cache is installed directly on the EVM; part 'reach' shows such a cache is reachable by one transaction under the 50M gas ceiling")
